@@ -204,9 +204,9 @@ def classes(case):
 
 @st.composite
 def _lib_cases(draw):
-    spec = draw(models.model_specs(noop=False))
+    spec = draw(st.one_of(models.model_specs(noop=False), models.custom_tables(concept_roles=True)))
     t = build_table(spec)
-    lits = [r for r in t['roles'] if '[' not in r][:8] + [':op1', ':op12', ':ARG0', ':ARG9', ':snt2']
+    lits = [r for r in t['roles'] if '[' not in r and '(' not in r][:8] + [':op1', ':op12', ':ARG0', ':ARG9', ':snt2'] + sorted(t['normalizations'])[:3] + [t['concept_role']]
     vs = ['a', 'b', 'c', 'd']
     roles = [':instance', ':instance'] + lits + [r + '-of' for r in lits[:6]] + [r + '-of-of' for r in lits[:3]] + [':foo', ':', ':TOP', ':foo-of', 'ARG0']
     tg = vs + ['x', 'a', None, 1, '"s"']
